@@ -715,11 +715,18 @@ int main(int argc, char** argv) {
     struct Combo { size_t mk, ad, id, kind; };
     vector<Combo> combos = {{0, 0, 2, 0}, {4, 2, 0, 11}, {5, 4, 1, 13}, {1, 1, 3, 15}};
     if (th) { combos.push_back({6, 0, 2, 8}); combos.push_back({4, 3, 5, 1}); }
-    for (auto& cb : combos) for (auto& t1 : texts) { if (stop) break; for (auto& t2 : texts) for (auto& t3 : texts) {
-      FileSpec f{cb.mk, cb.ad, cb.id, t1, {FieldSpec{cb.kind, 'd', "f0", t2, t3}}};
-      file(f);
-    } }
-    R.sample("(b) texts: message comment, unit and field comment each over all " + std::to_string(texts.size()) + " strings over {a , ; ' blank}, e.g. " + fileText(FileSpec{0, 0, 2, "a,'", {FieldSpec{0, 'd', "f0", ";a", "',"}}}).substr(1));
+    // thorough: the first three shapes with all texts of length <= 3, the others with length <= 2
+    vector<string> shortTexts;
+    for (auto& t : texts) if (t.size() <= 2) shortTexts.push_back(t);
+    for (size_t ci = 0; ci < combos.size(); ci++) {
+      auto& cb = combos[ci];
+      const vector<string>& tx = ci < 3 ? texts : shortTexts;
+      for (auto& t1 : tx) { if (stop) break; for (auto& t2 : tx) for (auto& t3 : tx) {
+        FileSpec f{cb.mk, cb.ad, cb.id, t1, {FieldSpec{cb.kind, 'd', "f0", t2, t3}}};
+        file(f);
+      } }
+    }
+    R.sample("(b) texts: message comment, unit and field comment each over all " + std::to_string(texts.size()) + " strings over {a , ; ' \" blank}, e.g. " + fileText(FileSpec{0, 0, 2, "a,'", {FieldSpec{0, 'd', "f0", ";a", "',"}}}).substr(1));
   }
   R.write(A.out);
   return 0;
